@@ -153,6 +153,20 @@ def program(t, form):
     if form == "await_actions":
         g = show(t, lambda i: f"Act{i}Action()")
         return f"flow main\n  await {g}\n  send Marker()\n  match Done()\n"
+    if form.startswith(("x3_events:", "x3_flows:")):
+        # the same group statement in three flows at once (own interaction loops, so their `send` do not compete);
+        # w1 ends right after its marker (its end produces internal events while the other groups are completing)
+        order = form.split(":")[1]
+        if form.startswith("x3_events"):
+            g = show(t, lambda i: f"E{i}()")
+            stmt, pre = f"match {g}", ""
+        else:
+            g = show(t, lambda i: f"f{i}")
+            stmt, pre = f"await {g}", flows
+        ws = ""
+        for k in (1, 2, 3):
+            ws += f'@loop("L{k}")\nflow w{k}\n  {stmt}\n  send Marker()\n' + ("" if k == 1 else "  match Done()\n") + "\n"
+        return pre + ws + "flow main\n" + "".join(f"  start w{k}\n" for k in order) + "  match Done()\n"
     raise ValueError(form)
 
 
@@ -243,7 +257,7 @@ def explore(task):
         if dead:
             nxt.aux["dead"] = tuple(sorted(dead))
         n_marker = sum(1 for e in nxt.state.outgoing_events if e["type"] == "Marker")
-        expect = 1 if (after and not before) else 0
+        expect = (3 if form.startswith("x3_") else 1) if (after and not before) else 0
         total = prev.aux.get("markers", 0) + n_marker
         nxt.aux["markers"] = total
         if after and not before:
@@ -353,6 +367,12 @@ def tasks(tier):
                 # Finished event): same as the formula without repetition, already covered
                 continue
             out.append((t, f, 0))
+    # three flows complete the same group statement on the same event (every position of the flow that ends)
+    for t in formulas(2 if tier == "quick" else 3):
+        for order in ("123", "213", "231"):
+            out.append((t, f"x3_events:{order}", 0))
+            if tier == "thorough" or order == "231":
+                out.append((t, f"x3_flows:{order}", 0))
     return out
 
 
